@@ -232,6 +232,19 @@ def model_apply(op, mp, vals):
         for r in res.rows:
             r[op['c']] = _fn_model(op['f'], r)
         return 'table', res, None
+    if k == 'if_none':
+        t = T()
+        res = t.copy()
+        c, v = op['c'], vals['v']
+        if c not in res.cols:
+            res.cols.append(c)
+            for r in res.rows:
+                r[c] = v
+        else:
+            for r in res.rows:
+                if r[c] is None:
+                    r[c] = v
+        return 'table', res, None
     if k == 'derive_const':
         t = T()
         res = t.copy()
@@ -397,6 +410,8 @@ def real_apply(op, pool, vals):
         return T().get(op['c'], vals['dflt'])
     if k == 'derive':
         return T()(**{op['c']: _fn(op['f'])})
+    if k == 'if_none':
+        return T().if_none(**{op['c']: vals['v']})
     if k == 'derive_const':
         return T()(**{op['c']: vals['v']})
     if k == 'apply':
@@ -453,6 +468,12 @@ def real_apply(op, pool, vals):
         if op.get('via') == 'attr':
             for c, v in vals['upd'].items():
                 setattr(T(), c, v)
+        elif op.get('via') == 'ior':
+            x_ = T()
+            x_ |= dict(vals['upd'])          # the in-place union of mappings is an assignment of columns too
+        elif op.get('via') == 'setdefault':
+            for c, v in vals['upd'].items():
+                T().setdefault(c, v)          # ... and so is setdefault for a column that is not there yet
         else:
             T().update(dict(vals['upd']))
         return None
@@ -642,7 +663,7 @@ def gen_history(rng, nops):
         m = mp[t]
         dst = rng.randrange(len(mp) + 1) if len(mp) < 4 else rng.randrange(4)
         k = rng.choice(['iadd', 'iadd', 'update', 'and', 'or', 'new_pairs', 'new_from_table', 'setitem', 'setitem', 'setbad', 'setcol_from', 'del', 'row', 'slice', 'slice', 'mask', 'mask', 'ints', 'project', 'tuple',
-                        'column', 'get', 'derive', 'derive_const', 'apply', 'relabel', 'do', 'drop', 'concat', 'concat', 'add', 'add_record',
+                        'column', 'get', 'derive', 'derive_const', 'if_none', 'apply', 'relabel', 'do', 'drop', 'concat', 'concat', 'add', 'add_record',
                         'add_none', 'copy', 'new', 'new_from_rows_of'])
         free = [c for c in gen.COLS + ['g', 'h'] if c not in m.cols]
         op = None
@@ -679,7 +700,9 @@ def gen_history(rng, nops):
             elif rng.random() < 0.25:
                 bad = rng.choice([x for x in (0, 2, 3, m.n + 1, m.n + 2) if x != m.n and x != 1])
                 upd = {cs[0]: gen.cells(rng, bad)}     # a single non-fitting column: must be rejected, table stays as it was
-            op = {'op': 'update', 't': t, 'upd': upd, 'via': rng.choice(['update', 'attr'])}
+            op = {'op': 'update', 't': t, 'upd': upd, 'via': rng.choice(['update', 'attr', 'ior', 'setdefault'])}
+            if op['via'] == 'setdefault' and any(c in m.cols for c in upd):
+                op['via'] = 'ior'
         elif k == 'and' and m.cols:
             cs = gen.subset(rng, m.cols, 1) + free[:1]
             op = {'op': 'and', 't': t, 'cs': cs, 'dst': dst}
@@ -733,6 +756,8 @@ def gen_history(rng, nops):
                 op['f']['args'] = args[:1]
             if rng.random() < 0.3:
                 op['f'] = {'fn': 'kdef', 'args': args[:1], 'k': rng.choice([1, 2, 3])}
+        elif k == 'if_none' and m.cols and m.n:
+            op = {'op': 'if_none', 't': t, 'c': rng.choice(m.cols + free[:1]), 'v': rng.choice([0, 'filled', 2.5]), 'dst': dst}
         elif k == 'derive_const' and m.cols:
             r_ = rng.random()
             v = gen.cell(rng) if r_ < 0.5 else gen.cells(rng, m.n) if r_ < 0.8 else gen.cells(rng, rng.choice([x for x in (0, 2, m.n + 1, m.n + 3) if x != m.n and x != 1]))
